@@ -3,6 +3,7 @@ package main
 // Evaluation of spec expressions (contract clauses) to SMT terms in a given state.
 
 import (
+	"os"
 	"math/big"
 	"fmt"
 	"go/token"
@@ -222,13 +223,13 @@ func (c *specCtx) localByName(name string) (Val, bool) {
 	// contract-declared positional names
 	if vc.contract != nil {
 		sig := fr.fn.Sig
-		if vc.contract.RecvName != "" && name == vc.contract.RecvName && sig.Recv() != nil {
+		if sig.Recv() != nil && ((vc.contract.RecvName != "" && name == vc.contract.RecvName) || (vc.contract.AltRecv != "" && name == vc.contract.AltRecv)) {
 			if t, ok := c.cur.locals[sig.Recv()]; ok {
 				return vc.mk(t, sig.Recv().Type()), true
 			}
 		}
-		if vc.contract.Params != nil {
-			for i, pn := range vc.contract.Params {
+		for _, plist := range [][]string{vc.contract.Params, vc.contract.AltParams} {
+			for i, pn := range plist {
 				if pn == name && i < sig.Params().Len() {
 					p := sig.Params().At(i)
 					if t, ok := c.cur.locals[p]; ok {
@@ -435,6 +436,11 @@ func (c *specCtx) index(b, i Val) Val {
 			return Val{S: fmt.Sprintf("(select (val_%s %s) %s)", b.Sort, b.S, i.S), Ty: u.Elem(), Sort: vc.sortOf(u.Elem())}
 		}
 	}
+	// slice-sorted value without a Go type (e.g. an entry of a ghost map[K][]byte)
+	if strings.HasPrefix(b.Sort, "Sl_") {
+		es := strings.TrimPrefix(b.Sort, "Sl_")
+		return Val{S: fmt.Sprintf("(select (arr_%s %s) %s)", b.Sort, b.S, i.S), Sort: es, Ty: c.vc.eng.typeOfSort(es)}
+	}
 	// raw SMT array
 	if strings.HasPrefix(b.Sort, "(Array ") {
 		es := arrayElemSort(b.Sort)
@@ -574,6 +580,26 @@ func (c *specCtx) call(x *SCall) Val {
 		}
 		c2 := &specCtx{vc: vc, cur: c.old, old: c.old, rc: nil, env: c.oldEnv(), bound: c.bound}
 		return c2.eval(x.Args[0])
+	case "oldheap":
+		// the expression over the entry heap / ghost state, but with the current values of locals (for loop invariants that
+		// relate the running state to the entry state, e.g. a recomputed sum to the sum at entry)
+		if !argn(1) {
+			return c.boolV("true")
+		}
+		hy := c.old.clone()
+		for k, v := range c.cur.locals {
+			hy.locals[k] = v
+		}
+		c2 := &specCtx{vc: vc, cur: hy, old: c.old, rc: c.rc, env: c.env, bound: c.bound}
+		return c2.eval(x.Args[0])
+	case "cap":
+		// capacity of a channel value (ghost chcap, fixed by make(chan T, n))
+		if !argn(1) {
+			return c.intV("0")
+		}
+		cv := c.eval(x.Args[0])
+		vc.declareFun("chcap", []string{"Int"}, "Int")
+		return c.intV(fmt.Sprintf("(chcap %s)", cv.S))
 	case "len":
 		if !argn(1) {
 			return c.intV("0")
@@ -596,6 +622,15 @@ func (c *specCtx) call(x *SCall) Val {
 			case *types.Array:
 				return c.intV(fmt.Sprint(u.Len()))
 			}
+		}
+		if strings.HasPrefix(v.Sort, "Sl_") {
+			ln := fmt.Sprintf("(len_%s %s)", v.Sort, v.S)
+			f := fmt.Sprintf("(>= %s 0)", ln)
+			if !strings.Contains(v.S, "_q") && !vc.rangeAsserted[f] {
+				vc.rangeAsserted[f] = true
+				vc.typeFacts = append(vc.typeFacts, f)
+			}
+			return c.intV(ln)
 		}
 		return c.fail("len of %s", v.Sort)
 	case "sum":
@@ -825,6 +860,8 @@ func (c *specCtx) call(x *SCall) Val {
 			if _, isSl := av.Ty.Underlying().(*types.Slice); isSl {
 				arr, _, _ = vc.sliceParts(av)
 			}
+		} else if strings.HasPrefix(av.Sort, "Sl_") {
+			arr = fmt.Sprintf("(arr_%s %s)", av.Sort, av.S)
 		}
 		n := map[string]int64{"be64": 8, "be32": 4, "be16": 2}[x.Fun]
 		return c.intV(vc.beValue(arr, off.S, n))
@@ -1063,11 +1100,22 @@ func (vc *VC) sumFacts(st *State, elemSort string, mk func(ps func(arr, n string
 		}
 		if p, ok := vc.eng.specs.Preds[f]; ok && len(p.Params) == 1 {
 			vc.needPsumG()
-			E := vc.measureArray(st, f)
-			ps := func(arr, n string) string { return fmt.Sprintf("(psumg %s %s %s)", E, arr, n) }
-			fv := func(v string) string { return fmt.Sprintf("(nn (select %s %s))", E, v) }
-			for _, fact := range mk(ps, fv) {
-				vc.assume(st, fact)
+			// the facts are pure consequences of the prefix-sum definition, so they hold for every measure; they are stated for the
+			// measure of the current heap and for the measure of the entry heap (the one the pre-condition speaks about). Stating them
+			// for every heap version met so far made some queries two orders of magnitude slower.
+			Es := []string{vc.measureArray(st, f)}
+			if vc.entry != nil && os.Getenv("GOVC_NOENTRYSUM") == "" {
+				if e0 := vc.measureArray(vc.entry, f); e0 != Es[0] {
+					Es = append(Es, e0)
+				}
+			}
+			for _, E := range Es {
+				E := E
+				ps := func(arr, n string) string { return fmt.Sprintf("(psumg %s %s %s)", E, arr, n) }
+				fv := func(v string) string { return fmt.Sprintf("(nn (select %s %s))", E, v) }
+				for _, fact := range mk(ps, fv) {
+					vc.assume(st, fact)
+				}
 			}
 			continue
 		}
@@ -1090,6 +1138,7 @@ func (vc *VC) needPsumG() {
 	}
 	vc.declareFun("psumg", []string{"(Array Int Int)", "(Array Int Int)", "Int"}, "Int")
 	vc.declareFun("psumg_diff", []string{"(Array Int Int)", "(Array Int Int)", "(Array Int Int)", "Int"}, "Int")
+	vc.declareFun("psumg_diff1", []string{"(Array Int Int)", "(Array Int Int)", "(Array Int Int)", "Int", "Int"}, "Int")
 	vc.declared["nn"] = true
 	vc.decls = append(vc.decls, "(define-fun nn ((x Int)) Int (ite (< x 0) 0 x))")
 	ax := []string{
@@ -1099,6 +1148,9 @@ func (vc *VC) needPsumG() {
 		"(forall ((E (Array Int Int)) (a (Array Int Int)) (k Int) (v Int) (n Int)) (! (= (psumg E (store a k v) n) (+ (psumg E a n) (ite (and (<= 0 k) (< k n)) (- (nn (select E v)) (nn (select E (select a k)))) 0))) :pattern ((psumg E (store a k v) n))))",
 		// frame: two measures that agree on the first n elements of a give the same prefix sum
 		"(forall ((E (Array Int Int)) (F (Array Int Int)) (a (Array Int Int)) (n Int)) (! (or (= (psumg E a n) (psumg F a n)) (and (<= 0 (psumg_diff E F a n)) (< (psumg_diff E F a n) n) (not (= (select E (select a (psumg_diff E F a n))) (select F (select a (psumg_diff E F a n))))))) :pattern ((psumg E a n) (psumg F a n))))",
+		// frame with one replaced position: the sum over a with position k replaced by v under E, against the sum over a under F,
+		// when E and F agree on every other one of the first n elements of a
+		"(forall ((E (Array Int Int)) (F (Array Int Int)) (a (Array Int Int)) (k Int) (v Int) (n Int)) (! (=> (and (<= 0 k) (< k n)) (or (= (psumg E (store a k v) n) (+ (- (psumg F a n) (nn (select F (select a k)))) (nn (select E v)))) (and (<= 0 (psumg_diff1 E F a k n)) (< (psumg_diff1 E F a k n) n) (not (= (psumg_diff1 E F a k n) k)) (not (= (select E (select a (psumg_diff1 E F a k n))) (select F (select a (psumg_diff1 E F a k n)))))))) :pattern ((psumg E (store a k v) n) (psumg F a n))))",
 	}
 	for _, a := range ax {
 		vc.globalAxioms = append(vc.globalAxioms, "(assert "+a+")")
